@@ -113,8 +113,8 @@ def run(chk):
     love(chk, repo, d, eq)
     # ---- R01.11 Love numbers of every requested type are read from the top row of that type's assembled solution (whole-driver symbolic execution)
     from . import solver_whole
-    solver_whole.assembled(chk, repo, None, None, 'R01.11')
-    chk.floor('R01.11', 20)
+    solver_whole.assembled(chk, repo, None, None, 'R01.11', rule_span='R01.12')
+    chk.floor('R01.11', 20); chk.floor('R01.12', 20)
     chk.floor('R01.1', 8 + 36 * 4 + 16 * 2 + 4 * 2); chk.floor('R01.2', 6); chk.floor('R01.3', 17); chk.floor('R01.5', 4)
     chk.assume('r, rho, g, K, omega > 0; mu complex; l treated as a symbolic real')
 
